@@ -10,31 +10,25 @@ Theorem okd_conditions d : okd d ->
   wt_levels (d_type d) (d_levels d) /\ live_from (d_type d) (d_levels d) (d_root d)
   /\ live_w (d_type d) (diameter d) (d_levels d) (d_root d).
 Proof.
-  intros [W G]. split; [exact W|]. split; [apply good_live; exact G|]. apply good_live_w; [|exact G].
-  unfold diameter. destruct (d_levels d) as [|l rest]; [lia|]. cbn [good_from] in G. lia.
+  intros [W [Rc G]]. split; [exact W|]. split; [apply (good_live _ (diameter d)); exact G|]. apply good_live_w. exact G.
 Qed.
 
-(* construct_chain *)
-Theorem chain_okd t units : okd (chain t units).
-Proof.
-  split; cbn [chain d_type d_levels d_root].
-  - intros l nd Hl Hnd. apply in_map_iff in Hl. destruct Hl as [u [<- _]]. destruct Hnd as [<-|[]]. split; apply a_zero_wt.
-  - apply chain_good.
-Qed.
+(* construct_chain: chain_okd in Proofs/OracleExact.v *)
 
 (* construct_tree *)
 Lemma nth_repeat_in {A} (a d : A) : forall w k, k < w -> nth k (repeat a w) d = a.
 Proof. induction w as [|w IH]; intros k H; [lia|]. destruct k as [|k]; [reflexivity|]. cbn [repeat nth]. apply IH. lia. Qed.
 
 Lemma tree_levels_good t n w : w = 2 ^ (n - 1) -> forall m s, s + S m = n -> forall k, k < 2 ^ s ->
-  good_from t (map (fun i => if Nat.eqb (S i) n then repeat (mkNode true 0 0 (a_zero t) (a_zero t)) w
+  good_from t w (map (fun i => if Nat.eqb (S i) n then repeat (mkNode true 0 0 (a_zero t) (a_zero t)) w
                              else map (fun k => mkNode true (2 * k) (2 * k + 1) (a_zero t) (a_zero t)) (seq 0 (2 ^ i))
                                   ++ repeat (dead t) (w - 2 ^ i)) (seq s (S m))) k.
 Proof.
   intros Hw. induction m as [|m IH]; intros s Hs k Hk.
   - cbn [seq map]. assert (E : Nat.eqb (S s) n = true) by (apply Nat.eqb_eq; lia). rewrite E. cbn [good_from].
     assert (Hkw : k < w) by (rewrite Hw; replace (n - 1) with s by lia; exact Hk).
-    rewrite repeat_length. unfold getnode. rewrite nth_repeat_in by exact Hkw. cbn [n_live n_c0 n_c1]. auto.
+    rewrite repeat_length. unfold getnode. rewrite nth_repeat_in by exact Hkw. cbn [n_live n_c0 n_c1].
+    assert (0 < w) by (rewrite Hw; apply Nat.neq_0_lt_0, Nat.pow_nonzero; lia). auto.
   - change (seq s (S (S m))) with (s :: seq (S s) (S m)). cbn [map].
     assert (E : Nat.eqb (S s) n = false) by (apply Nat.eqb_neq; lia). rewrite E. cbn [good_from].
     rewrite app_length, map_length, seq_length. split; [lia|].
@@ -48,15 +42,28 @@ Proof.
     split; apply IH; try lia.
 Qed.
 
+Lemma pow2_le a b : a <= b -> 2 ^ a <= 2 ^ b.
+Proof. intros H. apply Nat.pow_le_mono_r; lia. Qed.
 Theorem tree_okd t units : okd (tree t units).
 Proof.
-  split; cbn [tree d_type d_levels d_root].
-  - intros l nd Hl Hnd. apply in_map_iff in Hl. destruct Hl as [i [<- _]]. destruct (Nat.eqb (S i) (length units)).
+  set (n := length units). set (w := 2 ^ (n - 1)).
+  assert (Lv : forall l, In l (d_levels (tree t units)) -> length l = w).
+  { cbn [tree d_levels]. fold n w. intros l Hl. apply in_map_iff in Hl. destruct Hl as [i [<- Hi]]. apply in_seq in Hi.
+    destruct (Nat.eqb (S i) n); [apply repeat_length|]. rewrite app_length, map_length, seq_length, repeat_length.
+    assert (2 ^ i <= w) by (apply pow2_le; lia). lia. }
+  assert (Dm : diameter (tree t units) = match n with 0 => 1 | _ => w end).
+  { unfold diameter. destruct (d_levels (tree t units)) as [|l r] eqn:E.
+    - cbn [tree d_levels] in E. fold n in E. destruct n; [reflexivity|]. cbn [seq map] in E. discriminate.
+    - assert (length l = w) by (apply Lv; left; reflexivity). destruct n eqn:En; [|assumption].
+      cbn [tree d_levels] in E. fold n in E. rewrite En in E. discriminate. }
+  split; [|split].
+  - cbn [tree d_type d_levels]. intros l nd Hl Hnd. apply in_map_iff in Hl. destruct Hl as [i [<- _]]. destruct (Nat.eqb (S i) (length units)).
     + apply repeat_spec in Hnd. subst nd. split; apply a_zero_wt.
     + apply in_app_or in Hnd. destruct Hnd as [Hnd|Hnd]; [|apply repeat_spec in Hnd; subst nd; apply dead_wt].
       apply in_map_iff in Hnd. destruct Hnd as [k [<- _]]. split; apply a_zero_wt.
-  - destruct (length units) as [|m] eqn:E; [reflexivity|].
-    apply (tree_levels_good t (S m) (2 ^ (S m - 1)) eq_refl m 0); [lia|cbn; lia].
+  - intros l Hl. rewrite Dm, (Lv l Hl). destruct n eqn:En; [|reflexivity]. cbn [tree d_levels] in Hl. fold n in Hl. rewrite En in Hl. destruct Hl.
+  - rewrite Dm. cbn [tree d_type d_levels d_root]. fold n. destruct n as [|m] eqn:En; [cbn; lia|].
+    apply (tree_levels_good t (S m) w eq_refl m 0); [lia|cbn; lia].
 Qed.
 
 (* sum, restrict and edge updates keep diagrams well formed (and restrict / sum keep the type and the level count) *)
